@@ -179,6 +179,23 @@ def run_harness(op, args, workdir, tag, log, timeout=3000, binary=None, env=None
         log.append("harness %s: process died at case %d (%s); re-running with that case marked" %
                    (op, idx, (p.stderr.strip().split("\n") or [""])[0][:200]))
         crashed.append(idx)
+    # Too many cases kill the process to attribute them one by one.  The ones found are concrete
+    # failing inputs already: run the prefix that ends with the last of them, so that their lines
+    # (marked as crashed) reach the oracles.
+    if crashed and "-n" in args:
+        k = args.index("-n")
+        short = list(args)
+        short[k + 1] = str(max(max(crashed) + 1, 0))
+        cmd = [binary or HARNESS, op] + short + ["-progress", prog, "-crashed", ",".join(map(str, crashed))]
+        with open(lines, "w") as f:
+            try:
+                p = subprocess.run(cmd, stdout=f, stderr=subprocess.PIPE, text=True, timeout=timeout,
+                                   env=dict(env or GOENV, GOMEMLIMIT="3GiB"))
+            except subprocess.TimeoutExpired:
+                return lines, crashed, False
+        log.append("harness %s: %d cases kill the process; ran the first %s cases with them marked (rc=%d)" %
+                   (op, len(crashed), short[k + 1], p.returncode))
+        return lines, crashed, p.returncode == 0
     return lines, crashed, False
 
 
